@@ -2,7 +2,12 @@
 
 package dv
 
-import "github.com/named-data/ndnd/dv/table"
+import (
+	"github.com/named-data/ndnd/dv/config"
+	"github.com/named-data/ndnd/dv/table"
+	"github.com/named-data/ndnd/dv/tlv"
+	enc "github.com/named-data/ndnd/std/encoding"
+)
 
 // Contracts for dv/dv/table_algo.go (gcv). ribUpdate and checkDeadNeighbors end with
 // `go func() { dv.fibUpdate(); ... }()`: the engine drops the spawn from the VC (no interference modelled), so
@@ -11,23 +16,72 @@ import "github.com/named-data/ndnd/dv/table"
 type ghostCostMap = map[uint64]uint64
 type ghostFibSlice = []table.FibEntry
 
-// ribUpdate (C18): reset-then-set. Afterwards the RIB invariant holds, no entry is dirty, no entry is unreachable
-// (pruned: what Advert() needs), and every remaining entry carries a cost for this neighbour that is a hop
-// count: at least 1 (cost = adv+1) and at most infinity (reset value).
+// specAdvCost (dv/SPEC.md, "Update Processing"): the cost of a destination through the neighbour that sent the
+// advertisement entry (cost, other, next hop), saturated at infinity:
+//
+//	cost = entry.cost + 1
+//	if entry.nexthop is self: cost = entry.other + 1 if entry.other < INFINITY else INFINITY     (poison reverse)
+//	if cost >= INFINITY: continue                                                             (never entered)
+//
+// The advertised numbers are unbounded naturals in the specification; every value at or above infinity stands for
+// "unreachable", so the saturated value 16 represents all of them (no wrap-around of the 64-bit addition).
+func specAdvCost(nextHopIsSelf bool, cost uint64, other uint64) uint64 {
+	if nextHopIsSelf {
+		if other < config.CostInfinity {
+			return other + 1
+		}
+		return config.CostInfinity
+	}
+	if cost >= config.CostInfinity {
+		return config.CostInfinity
+	}
+	return cost + 1
+}
+
+// specEntryCost: the cost that advertisement entry e prescribes for its destination through the sending neighbour;
+// infinity (= the entry is ignored) for an entry the decoder left incomplete and for an entry that lists a
+// destination at or above infinity (the property: "no advertisement ever lists a destination whose best cost is at
+// or above infinity"; such an entry is not an advertisement of a route).
+func specEntryCost(e *tlv.AdvEntry, self enc.Name) uint64 {
+	if e == nil || e.Destination == nil || e.NextHop == nil || e.Cost >= config.CostInfinity {
+		return config.CostInfinity
+	}
+	return specAdvCost(enc.SpecEqName(e.NextHop.Name, self), e.Cost, e.OtherCost)
+}
+
+// ribUpdate (C18): one step of the distance-vector computation, reset-then-set. With E = ns.Advert.Entries, self =
+// this router's name and n = hash of the neighbour's name, afterwards
+//   - the RIB invariant holds, no entry is dirty, no entry is unreachable (pruned: what Advert() needs);
+//   - [adv-sound]    every cost below infinity held for neighbour n is specEntryCost(E[i]) of some entry i for that
+//                    destination: nothing stale survives the update, nothing is entered that SPEC.md skips, and the
+//                    poison-reverse rule is applied;
+//   - [adv-complete] every entry whose specEntryCost is below infinity leaves its destination present with a finite
+//                    cost through n, and that cost is the one of the LAST such entry for the destination;
+//   - each single call of Rib.Set is made for an entry with specEntryCost < infinity, with exactly that cost
+//                    (assert [cost-per-spec]).
 //
 //@ func (*Router).ribUpdate
 //@   requires dv.rib != nil && dv.config != nil && ns != nil && table.ribInv(dv.rib)
 //@   requires forall(func(a uint64, b uint64) bool { return dv.rib.hasEntry(a) && dv.rib.hasEntry(b) && a != b ==> dv.rib.entries[a].costs != dv.rib.entries[b].costs })
-//@   requires ns.Advert != nil ==> forallIn(0, len(ns.Advert.Entries), func(i int) bool { return ns.Advert.Entries[i] != nil && ns.Advert.Entries[i].NextHop != nil && ns.Advert.Entries[i].Destination != nil })
 //@   modifies dv.rib.entries[*], dv.rib.neighbors[*], all(ghostCostMap), all(table.RibEntry.dirty), all(table.RibEntry.lowest1), all(table.RibEntry.lowest2), all(table.RibEntry.nextHop1), all(table.RibEntry.nextHop2)
 //@   ensures table.ribInv(dv.rib)
 //@   ensures forall(func(a uint64, b uint64) bool { return dv.rib.hasEntry(a) && dv.rib.hasEntry(b) && a != b ==> dv.rib.entries[a].costs != dv.rib.entries[b].costs })
 //@   ensures ns.Advert != nil ==> table.ribClean(dv.rib) && table.ribPruned(dv.rib)
 //@   ensures ns.Advert != nil ==> forall(func(h uint64) bool { return dv.rib.hasEntry(h) ==> dv.rib.entries[h].hasHop(enc.SpecNameHash(ns.Name)) && 1 <= dv.rib.entries[h].costs[enc.SpecNameHash(ns.Name)] && dv.rib.entries[h].costs[enc.SpecNameHash(ns.Name)] <= 16 })
-//@   loop 1 invariant ns.Advert != nil && forallIn(0, len(ns.Advert.Entries), func(i int) bool { return ns.Advert.Entries[i] != nil && ns.Advert.Entries[i].NextHop != nil && ns.Advert.Entries[i].Destination != nil })
+//@   ensures [adv-sound] ns.Advert != nil ==> forall(func(h uint64) bool { return dv.rib.hasEntry(h) && dv.rib.entries[h].costs[enc.SpecNameHash(ns.Name)] != 16 ==> existsIn(0, len(ns.Advert.Entries), func(i int) bool { return specEntryCost(ns.Advert.Entries[i], dv.config.routerNameN) == dv.rib.entries[h].costs[enc.SpecNameHash(ns.Name)] && enc.SpecNameHash(ns.Advert.Entries[i].Destination.Name) == h }) })
+//@   ensures [adv-complete] ns.Advert != nil ==> forallIn(0, len(ns.Advert.Entries), func(i int) bool { return specEntryCost(ns.Advert.Entries[i], dv.config.routerNameN) < 16 ==> dv.rib.hasEntry(enc.SpecNameHash(ns.Advert.Entries[i].Destination.Name)) && dv.rib.entries[enc.SpecNameHash(ns.Advert.Entries[i].Destination.Name)].costs[enc.SpecNameHash(ns.Name)] < 16 })
+//@   ensures [adv-last] ns.Advert != nil ==> forallIn(0, len(ns.Advert.Entries), func(i int) bool { return specEntryCost(ns.Advert.Entries[i], dv.config.routerNameN) < 16 && forallIn(i+1, len(ns.Advert.Entries), func(j int) bool { return specEntryCost(ns.Advert.Entries[j], dv.config.routerNameN) < 16 ==> enc.SpecNameHash(ns.Advert.Entries[j].Destination.Name) != enc.SpecNameHash(ns.Advert.Entries[i].Destination.Name) }) ==> dv.rib.entries[enc.SpecNameHash(ns.Advert.Entries[i].Destination.Name)].costs[enc.SpecNameHash(ns.Name)] == specEntryCost(ns.Advert.Entries[i], dv.config.routerNameN) })
+//@   opaque enc.specEqName
+//@   option spec-range
+//@   assert before Set@1 [cost-per-spec] cost < 16 && cost == specEntryCost(entry, dv.config.routerNameN)
+//@   loop 1 invariant ns.Advert != nil
 //@   loop 1 invariant table.ribInv(dv.rib)
 //@   loop 1 invariant forall(func(a uint64, b uint64) bool { return dv.rib.hasEntry(a) && dv.rib.hasEntry(b) && a != b ==> dv.rib.entries[a].costs != dv.rib.entries[b].costs })
 //@   loop 1 invariant forall(func(h uint64) bool { return dv.rib.hasEntry(h) ==> dv.rib.entries[h].hasHop(enc.SpecNameHash(ns.Name)) && 1 <= dv.rib.entries[h].costs[enc.SpecNameHash(ns.Name)] && dv.rib.entries[h].costs[enc.SpecNameHash(ns.Name)] <= 16 })
+//@   loop 1 invariant [adv-sound] forall(func(h uint64) bool { return dv.rib.hasEntry(h) && dv.rib.entries[h].costs[enc.SpecNameHash(ns.Name)] != 16 ==> existsIn(0, rangeindex+1, func(i int) bool { return specEntryCost(ns.Advert.Entries[i], dv.config.routerNameN) == dv.rib.entries[h].costs[enc.SpecNameHash(ns.Name)] && enc.SpecNameHash(ns.Advert.Entries[i].Destination.Name) == h }) })
+//@   loop 1 invariant [adv-complete] forallIn(0, rangeindex+1, func(i int) bool { return specEntryCost(ns.Advert.Entries[i], dv.config.routerNameN) < 16 ==> dv.rib.hasEntry(enc.SpecNameHash(ns.Advert.Entries[i].Destination.Name)) })
+//@   loop 1 invariant [adv-complete-cost] forallIn(0, rangeindex+1, func(i int) bool { return specEntryCost(ns.Advert.Entries[i], dv.config.routerNameN) < 16 ==> dv.rib.entries[enc.SpecNameHash(ns.Advert.Entries[i].Destination.Name)].costs[enc.SpecNameHash(ns.Name)] < 16 })
+//@   loop 1 invariant [adv-last] forallIn(0, rangeindex+1, func(i int) bool { return specEntryCost(ns.Advert.Entries[i], dv.config.routerNameN) < 16 && forallIn(i+1, rangeindex+1, func(j int) bool { return specEntryCost(ns.Advert.Entries[j], dv.config.routerNameN) < 16 ==> enc.SpecNameHash(ns.Advert.Entries[j].Destination.Name) != enc.SpecNameHash(ns.Advert.Entries[i].Destination.Name) }) ==> dv.rib.entries[enc.SpecNameHash(ns.Advert.Entries[i].Destination.Name)].costs[enc.SpecNameHash(ns.Name)] == specEntryCost(ns.Advert.Entries[i], dv.config.routerNameN) })
 
 // checkDeadNeighbors (C18): a dead neighbour is removed from the neighbour table, its costs are removed from
 // every RIB entry and the RIB is pruned; the RIB invariant is re-established.
@@ -45,15 +99,103 @@ type ghostFibSlice = []table.FibEntry
 //@   loop 1 invariant old(table.ribClean(dv.rib)) ==> table.ribClean(dv.rib)
 
 // fibUpdate (C19): per prefix, the union over reachable remote routers announcing it (and each router's own
-// .../DV prefix) of GetFibEntries is handed to UpdateH; everything else is removed by RemoveUnmarked, so
-// afterwards every installed prefix is marked (was prescribed in this round).
+// .../DV prefix) of GetFibEntries is handed to UpdateH; everything else is removed by RemoveUnmarked. What is stated,
+// step by step (fibEntries/names are the two local maps, R = the slice returned by rib.Entries(), `rangeslice1`):
+//   - register (closure, called through its contract): the next hops of a router are ADDED to the list collected for the
+//     prefix, nothing collected is ever lost ([has-kept]), nothing else is added ([only-added]);
+//   - inner loop, for the router being processed: its own prefix and every prefix it announces that was visited so far
+//     have BOTH of its table entries (face of best / second-best next hop, cost) in their list ([own-prefix-listed],
+//     [announced-so-far]) - with [has-kept] this is "every FibEntry of every contributing router is handed to UpdateH";
+//   - [hops-from-table]: every collected entry is one of the two table entries of some router R[i] processed so far
+//     (nothing for unreachable destinations - R only holds entries below infinity - or for faces a neighbour no longer uses);
+//   - last loop: UpdateH is called with exactly the list collected for that hash ([collected-list-handed-over]); a prefix is
+//     marked only if prescribed ([only-prescribed-marked]); a prescribed prefix is installed iff its list has a finite
+//     entry, and then it is marked ([finite-installed], [installed-finite], [installed-marked]); so RemoveUnmarked removes
+//     exactly the prefixes that are not prescribed in this round (post 2 with RemoveUnmarked's contract).
+// NOT mechanised: the composition over routers as one quantified outer invariant ("for all i <= rangeindex, for all prefixes
+// of R[i] ..."): its hypothesis `R[i] is not this router` (Name.Equal) cannot be shown stable across
+// `append(router.Name(), ...)`, which may write into spare capacity of a name's backing array; it follows informally from
+// the per-router statement and [has-kept]. The router's own prefix is keyed by the hash of a freshly built name
+// (SpecNameHash is a function of the slice header), so it can only be named for the router being processed.
+// Preconditions beyond the table invariants: every prefix entry is non-nil with a non-nil name ([prefix-names-present];
+// a prefix with a nil name would reach UpdateH with name == nil and would never be removed again by RemoveUnmarked).
 //
 //@ func (*Router).fibUpdate
 //@   requires dv.rib != nil && dv.fib != nil && dv.neighbors != nil && dv.pfx != nil && dv.config != nil
-//@   requires table.ribInv(dv.rib) && table.fibInv(dv.fib) && table.ptInv(dv.pfx)
+//@   requires table.ribInv(dv.rib) && table.fibInv(dv.fib) && table.ptInv(dv.pfx) && table.ptEntriesInv(dv.pfx)
+//@   requires [prefix-names-present] forall(func(h uint64, k uint64) bool { return dv.pfx.hasRouter(h) && dv.pfx.routers[h] != nil && dv.pfx.routers[h].hasPfx(k) ==> dv.pfx.routers[h].Prefixes[k].Name != nil })
 //@   modifies dv.fib.names[*], dv.fib.prefixes[*], dv.fib.mark[*], all(ghostFibSlice), dv.pfx.routers[*]
 //@   ensures table.fibInv(dv.fib)
 //@   ensures forall(func(h uint64) bool { return dv.fib.hasPrefix(h) ==> dv.fib.mark[h] })
+//@   option closed-map-slices
+//@   option spec-range
+//@   option nil-base-unwritten
+//@   opaque enc.specEqName table.SpecListHas
+//@   loop 1 invariant names != nil && fibEntries != nil && table.ptInv(dv.pfx) && table.ptEntriesInv(dv.pfx) && table.fibInv(dv.fib)
+//@   loop 1 invariant [installed-old] forall(func(g uint64) bool { return dv.fib.hasPrefix(g) ==> !fresh(dv.fib.prefixes[g]) })
+//@   loop 1 invariant [prefix-names-present] forall(func(h uint64, k uint64) bool { return dv.pfx.hasRouter(h) && dv.pfx.routers[h] != nil && dv.pfx.routers[h].hasPfx(k) ==> dv.pfx.routers[h].Prefixes[k].Name != nil })
+//@   loop 1 invariant [collected-fresh] forall(func(h uint64) bool { return mapHas(fibEntries, h) ==> fresh(fibEntries[h]) && allocated(fibEntries[h]) && len(fibEntries[h]) > 0 && sliceOff(fibEntries[h]) == 0 && mapHas(names, h) && names[h] != nil })
+//@   loop 1 invariant [collected-distinct] forall(func(a uint64, b uint64) bool { return mapHas(fibEntries, a) && mapHas(fibEntries, b) && a != b ==> sliceArr(fibEntries[a]) != sliceArr(fibEntries[b]) })
+//@   loop 1 invariant [hops-from-table] forall(func(h uint64, f uint64, c uint64) bool { return mapHas(fibEntries, h) && table.SpecListHas(fibEntries, h, f, c) ==> existsIn(0, rangeindex1+1, func(i int) bool { return table.SpecIsRouterHop(f, c, dv.neighbors, rangeslice1[i]) }) })
+//@   loop 2 invariant [hops-from-table] forall(func(h uint64, f uint64, c uint64) bool { return mapHas(fibEntries, h) && table.SpecListHas(fibEntries, h, f, c) ==> table.SpecIsRouterHop(f, c, dv.neighbors, router) || existsIn(0, rangeindex1+1, func(i int) bool { return table.SpecIsRouterHop(f, c, dv.neighbors, rangeslice1[i]) }) })
+//@   loop 2 invariant [fes-per-table] router != nil && dv.rib.hasEntry(enc.SpecNameHash(router.name)) && dv.rib.entries[enc.SpecNameHash(router.name)] == router && fes[0].FaceId == table.specFace(dv.neighbors, router.nextHop1) && fes[0].Cost == router.lowest1 && fes[1].FaceId == table.specFace(dv.neighbors, router.nextHop2) && fes[1].Cost == router.lowest2
+//@   loop 2 invariant [own-prefix-listed] table.SpecListHasRouterHops(fibEntries, enc.SpecNameHash(routerPrefix), dv.neighbors, router)
+//@   loop 2 invariant [announced-so-far] forall(func(k uint64) bool { return visited(k) && mapHas(dv.pfx.routers[enc.SpecNameHash(router.name)].Prefixes, k) ==> table.SpecListHasRouterHops(fibEntries, enc.SpecNameHash(dv.pfx.routers[enc.SpecNameHash(router.name)].Prefixes[k].Name), dv.neighbors, router) })
+//@   loop 2 invariant names != nil && fibEntries != nil && len(fes) == 2 && allocated(fes)
+//@   loop 2 invariant table.ptInv(dv.pfx) && table.ptEntriesInv(dv.pfx)
+//@   loop 2 invariant [installed-old] forall(func(g uint64) bool { return dv.fib.hasPrefix(g) ==> !fresh(dv.fib.prefixes[g]) })
+//@   loop 2 invariant table.fibInv(dv.fib)
+//@   loop 2 invariant [prefix-names-present] forall(func(h uint64, k uint64) bool { return dv.pfx.hasRouter(h) && dv.pfx.routers[h] != nil && dv.pfx.routers[h].hasPfx(k) ==> dv.pfx.routers[h].Prefixes[k].Name != nil })
+//@   loop 2 invariant [collected-fresh] forall(func(h uint64) bool { return mapHas(fibEntries, h) ==> fresh(fibEntries[h]) && allocated(fibEntries[h]) && len(fibEntries[h]) > 0 && sliceOff(fibEntries[h]) == 0 && mapHas(names, h) && names[h] != nil && sliceArr(fibEntries[h]) != sliceArr(fes) })
+//@   loop 2 invariant [collected-distinct] forall(func(a uint64, b uint64) bool { return mapHas(fibEntries, a) && mapHas(fibEntries, b) && a != b ==> sliceArr(fibEntries[a]) != sliceArr(fibEntries[b]) })
+//@   loop 3 invariant table.fibInv(dv.fib) && names != nil && fibEntries != nil
+//@   assert before UpdateH@1 [collected-list-handed-over] mapHas(fibEntries, nameH) && sameSlice(fes, fibEntries[nameH]) && names[nameH] != nil
+//@   assert before MarkH@1 [installed-means-finite-handed] existsIn(0, len(fes), func(j int) bool { return fes[j].Cost < 16 })
+//@   assert before MarkH@1 [handed-is-collected] mapHas(fibEntries, nameH) && sameSlice(fes, fibEntries[nameH])
+//@   assert before MarkH@1 [installed-means-finite] mapHas(fibEntries, nameH) && existsIn(0, len(fibEntries[nameH]), func(j int) bool { return fibEntries[nameH][j].Cost < 16 })
+//@   assert before RemoveUnmarked@1 [only-prescribed-marked] forall(func(h uint64) bool { return dv.fib.hasMark(h) && dv.fib.mark[h] ==> mapHas(fibEntries, h) })
+//@   assert before RemoveUnmarked@1 [installed-marked] forall(func(h uint64) bool { return mapHas(fibEntries, h) && dv.fib.hasPrefix(h) ==> dv.fib.mark[h] })
+//@   assert before RemoveUnmarked@1 [finite-installed] forall(func(h uint64) bool { return mapHas(fibEntries, h) && existsIn(0, len(fibEntries[h]), func(j int) bool { return fibEntries[h][j].Cost < 16 }) ==> dv.fib.hasPrefix(h) })
+//@   assert before RemoveUnmarked@1 [installed-finite] forall(func(h uint64) bool { return mapHas(fibEntries, h) && dv.fib.hasPrefix(h) ==> existsIn(0, len(fibEntries[h]), func(j int) bool { return fibEntries[h][j].Cost < 16 }) })
+//@   loop 3 invariant [only-prescribed-marked] forall(func(h uint64) bool { return dv.fib.hasMark(h) && dv.fib.mark[h] ==> visited(h) && mapHas(fibEntries, h) })
+//@   loop 3 invariant [installed-marked] forall(func(h uint64) bool { return visited(h) && mapHas(fibEntries, h) && dv.fib.hasPrefix(h) ==> dv.fib.mark[h] })
+//@   loop 3 invariant [finite-installed] forall(func(h uint64) bool { return visited(h) && mapHas(fibEntries, h) && existsIn(0, len(fibEntries[h]), func(j int) bool { return fibEntries[h][j].Cost < 16 }) ==> dv.fib.hasPrefix(h) })
+//@   loop 3 invariant [installed-finite] forall(func(h uint64) bool { return visited(h) && mapHas(fibEntries, h) && dv.fib.hasPrefix(h) ==> existsIn(0, len(fibEntries[h]), func(j int) bool { return fibEntries[h][j].Cost < 16 }) })
+//@   loop 3 invariant [collected-apart] forall(func(h uint64, g uint64) bool { return mapHas(fibEntries, h) && dv.fib.hasPrefix(g) ==> sliceArr(fibEntries[h]) != sliceArr(dv.fib.prefixes[g]) })
+//@   loop 3 invariant [collected-fresh] forall(func(h uint64) bool { return mapHas(fibEntries, h) ==> fresh(fibEntries[h]) && allocated(fibEntries[h]) && len(fibEntries[h]) > 0 && sliceOff(fibEntries[h]) == 0 && mapHas(names, h) && names[h] != nil })
+
+// register (the closure of fibUpdate, C19 "over ALL reachable remote routers currently announcing it"): the next hops fes
+// are ADDED to what is already collected for the prefix: the list collected under the prefix's hash keeps every element it
+// had, in place, and is extended by the elements of fes, in order; the lists of all other prefixes are untouched; the
+// prefix's name is recorded. (The captured variables are cells: *names and *fibEntries are the two maps.)
+//
+//@ func (*Router).fibUpdate$1
+//@   option modular-closure
+//@   option chain-ensures
+//@   requires *names != nil && *fibEntries != nil
+//@   requires [no-alias] len(fes) == 0 || sliceArr(fes) != sliceArr((*fibEntries)[enc.SpecNameHash(name)])
+//@   requires [distinct-arrays] forall(func(a uint64, b uint64) bool { return mapHas(*fibEntries, a) && mapHas(*fibEntries, b) && a != b ==> sliceArr((*fibEntries)[a]) != sliceArr((*fibEntries)[b]) })
+//@   requires [allocated] forall(func(k uint64) bool { return mapHas(*fibEntries, k) ==> allocated((*fibEntries)[k]) && len((*fibEntries)[k]) > 0 && sliceOff((*fibEntries)[k]) == 0 })
+//@   modifies (*names)[*], (*fibEntries)[*], (*fibEntries)[enc.SpecNameHash(name)][*]
+//@   ensures [name-recorded] mapHas(*names, enc.SpecNameHash(name)) && sameSlice((*names)[enc.SpecNameHash(name)], name)
+//@   ensures [other-names-kept] forall(func(k uint64) bool { return k != enc.SpecNameHash(name) ==> mapHas(*names, k) == old(mapHas(*names, k)) && sameSlice((*names)[k], old((*names)[k])) })
+//@   ensures [listed] mapHas(*fibEntries, enc.SpecNameHash(name)) && len((*fibEntries)[enc.SpecNameHash(name)]) == old(len((*fibEntries)[enc.SpecNameHash(name)]))+len(fes)
+//@   ensures [others-kept] forall(func(k uint64) bool { return k != enc.SpecNameHash(name) ==> mapHas(*fibEntries, k) == old(mapHas(*fibEntries, k)) && sameSlice((*fibEntries)[k], old((*fibEntries)[k])) })
+//@   ensures [zero-offset] forall(func(k uint64) bool { return mapHas(*fibEntries, k) && len(fes) > 0 ==> sliceOff((*fibEntries)[k]) == 0 })
+//@   ensures [grow] forall(func(k uint64) bool { return old(mapHas(*fibEntries, k)) ==> mapHas(*fibEntries, k) && len((*fibEntries)[k]) >= old(len((*fibEntries)[k])) && forallIn(0, old(len((*fibEntries)[k])), func(j int) bool { return old((*fibEntries)[k][j].FaceId) == (*fibEntries)[k][j].FaceId && old((*fibEntries)[k][j].Cost) == (*fibEntries)[k][j].Cost }) })
+//@   ensures [earlier-kept] forallIn(0, old(len((*fibEntries)[enc.SpecNameHash(name)])), func(j int) bool { return (*fibEntries)[enc.SpecNameHash(name)][j].FaceId == old((*fibEntries)[enc.SpecNameHash(name)][j].FaceId) && (*fibEntries)[enc.SpecNameHash(name)][j].Cost == old((*fibEntries)[enc.SpecNameHash(name)][j].Cost) })
+//@   ensures [added] forallIn(old(len((*fibEntries)[enc.SpecNameHash(name)])), len((*fibEntries)[enc.SpecNameHash(name)]), func(g int) bool { return (*fibEntries)[enc.SpecNameHash(name)][g].FaceId == fes[g-old(len((*fibEntries)[enc.SpecNameHash(name)]))].FaceId && (*fibEntries)[enc.SpecNameHash(name)][g].Cost == fes[g-old(len((*fibEntries)[enc.SpecNameHash(name)]))].Cost })
+//@   ensures [added-0] len(fes) > 0 ==> (*fibEntries)[enc.SpecNameHash(name)][old(len((*fibEntries)[enc.SpecNameHash(name)]))].FaceId == fes[0].FaceId && (*fibEntries)[enc.SpecNameHash(name)][old(len((*fibEntries)[enc.SpecNameHash(name)]))].Cost == fes[0].Cost
+//@   ensures [added-1] len(fes) > 1 ==> (*fibEntries)[enc.SpecNameHash(name)][old(len((*fibEntries)[enc.SpecNameHash(name)]))+1].FaceId == fes[1].FaceId && (*fibEntries)[enc.SpecNameHash(name)][old(len((*fibEntries)[enc.SpecNameHash(name)]))+1].Cost == fes[1].Cost
+//@   ensures [same-or-fresh-array] sliceArr((*fibEntries)[enc.SpecNameHash(name)]) == old(sliceArr((*fibEntries)[enc.SpecNameHash(name)])) || fresh((*fibEntries)[enc.SpecNameHash(name)])
+//@   ensures [still-allocated] allocated((*fibEntries)[enc.SpecNameHash(name)])
+//@   ensures [still-distinct] len(fes) > 0 ==> forall(func(a uint64, b uint64) bool { return mapHas(*fibEntries, a) && mapHas(*fibEntries, b) && a != b ==> sliceArr((*fibEntries)[a]) != sliceArr((*fibEntries)[b]) })
+//@   ensures [fes-kept] forallIn(0, len(fes), func(j int) bool { return fes[j].FaceId == old(fes[j].FaceId) && fes[j].Cost == old(fes[j].Cost) })
+//@   ensures [has-kept] forall(func(k uint64, f uint64, c uint64) bool { return old(table.SpecListHas(*fibEntries, k, f, c)) ==> table.SpecListHas(*fibEntries, k, f, c) })
+//@   ensures [has-added-0] len(fes) > 0 ==> table.SpecListHas(*fibEntries, enc.SpecNameHash(name), fes[0].FaceId, fes[0].Cost)
+//@   ensures [has-added-1] len(fes) > 1 ==> table.SpecListHas(*fibEntries, enc.SpecNameHash(name), fes[1].FaceId, fes[1].Cost)
+//@   ensures [has-only-if-listed] forall(func(k uint64, f uint64, c uint64) bool { return old(table.SpecListHas(*fibEntries, k, f, c)) ==> old(mapHas(*fibEntries, k)) })
+//@   ensures [only-added] forall(func(k uint64, f uint64, c uint64) bool { return table.SpecListHas(*fibEntries, k, f, c) ==> old(table.SpecListHas(*fibEntries, k, f, c)) || (k == enc.SpecNameHash(name) && ((len(fes) > 0 && fes[0].FaceId == f && fes[0].Cost == c) || (len(fes) > 1 && fes[1].FaceId == f && fes[1].Cost == c) || existsIn(2, len(fes), func(j int) bool { return fes[j].FaceId == f && fes[j].Cost == c }))) })
 
 // ---------------------------------------------------------------------------------------
 // advertSyncOnInterest (C19: installed routes follow the neighbour's face): whenever hearing a neighbour reports that its
@@ -71,3 +213,68 @@ var ghostDvFaceChanged bool // some RecvPing call reported a changed face since 
 
 //@ func (*Router).advertSyncOnInterest
 //@   loop 1 invariant [face-change-marks-fib-dirty] ghostDvFaceChanged == old(ghostDvFaceChanged) || fibDirty
+
+// ---------------------------------------------------------------------------------------
+// prefixDataFetch (C19, replication of the operation log: "adds, removes, resets, periodic snapshots, in order"): the
+// DECISION to fetch. With r the record of the router named nodeId in the prefix table, K = r.Known (last operation
+// applied), L = r.Latest (last operation announced by prefix sync):
+//
+//	a fetch is prepared  <=>  the router is a reachable destination, no fetch for it is in flight (r.Fetching), and K < L;
+//	the operation asked for is number K+1 (the NEXT one: "in order"), unless more than 100 operations are missing, in
+//	which case the snapshot is asked for; r.Fetching is set exactly when a fetch is prepared; nothing is sent otherwise.
+//
+// Ghost trace (environment contracts, assumptions): every call of Spec.MakeInterest, of Engine.Express and of
+// enc.NewSequenceNumComponent is counted / recorded. The callback handed to Express, its goroutines and the re-check it
+// schedules (A-SEQ), the engine and the Interest encoder are outside this contract.
+// ---------------------------------------------------------------------------------------
+
+var ghostDvMakeInterest int // Interests built by the packet codec so far
+var ghostDvExpress int      // Interests handed to the engine so far
+var ghostDvSeqAsked uint64  // the number of the last sequence-number component built
+var ghostDvSeqComps int     // sequence-number components built so far
+
+//@ func (github.com/named-data/ndnd/std/ndn.Engine).Spec
+//@   trusted
+//@   ensures result != nil
+//@   ensures ghostDvMakeInterest == old(ghostDvMakeInterest) && ghostDvExpress == old(ghostDvExpress) && ghostDvSeqAsked == old(ghostDvSeqAsked) && ghostDvSeqComps == old(ghostDvSeqComps)
+
+//@ func (github.com/named-data/ndnd/std/ndn.Engine).Timer
+//@   trusted
+//@   ensures result != nil
+//@   ensures ghostDvMakeInterest == old(ghostDvMakeInterest) && ghostDvExpress == old(ghostDvExpress) && ghostDvSeqAsked == old(ghostDvSeqAsked) && ghostDvSeqComps == old(ghostDvSeqComps)
+
+//@ func (github.com/named-data/ndnd/std/ndn.Timer).Nonce
+//@   trusted
+//@   ensures ghostDvMakeInterest == old(ghostDvMakeInterest) && ghostDvExpress == old(ghostDvExpress) && ghostDvSeqAsked == old(ghostDvSeqAsked) && ghostDvSeqComps == old(ghostDvSeqComps)
+
+//@ func (github.com/named-data/ndnd/std/ndn.Spec).MakeInterest
+//@   trusted
+//@   modifies ghostDvMakeInterest
+//@   ensures ghostDvMakeInterest == old(ghostDvMakeInterest)+1 && ghostDvExpress == old(ghostDvExpress) && ghostDvSeqAsked == old(ghostDvSeqAsked) && ghostDvSeqComps == old(ghostDvSeqComps)
+//@   ensures result1 == nil ==> result0 != nil
+
+//@ func (github.com/named-data/ndnd/std/ndn.Engine).Express
+//@   trusted
+//@   modifies ghostDvExpress
+//@   ensures ghostDvExpress == old(ghostDvExpress)+1 && ghostDvMakeInterest == old(ghostDvMakeInterest) && ghostDvSeqAsked == old(ghostDvSeqAsked) && ghostDvSeqComps == old(ghostDvSeqComps)
+
+//@ func github.com/named-data/ndnd/std/encoding.NewSequenceNumComponent
+//@   trusted
+//@   modifies ghostDvSeqAsked, ghostDvSeqComps
+//@   ensures ghostDvSeqAsked == seq && ghostDvSeqComps == old(ghostDvSeqComps)+1 && ghostDvMakeInterest == old(ghostDvMakeInterest) && ghostDvExpress == old(ghostDvExpress)
+
+// specFetchDue: the record of router h exists and calls for a fetch.
+func specFetchDue(pt *table.PrefixTable, h uint64) bool {
+	return table.SpecPfxFetchDue(pt, h)
+}
+
+//@ func (*Router).prefixDataFetch
+//@   requires dv.rib != nil && dv.pfx != nil && dv.engine != nil && table.ribInv(dv.rib) && table.ptInv(dv.pfx)
+//@   modifies dv.pfx.routers[*], all(table.PrefixTableRouter.Fetching)
+//@   ensures [fetch-iff-behind] (ghostDvMakeInterest == old(ghostDvMakeInterest)+1) == old(dv.rib.hasEntry(enc.SpecNameHash(nodeId)) && dv.rib.entries[enc.SpecNameHash(nodeId)].lowest1 < 16 && specFetchDue(dv.pfx, enc.SpecNameHash(nodeId)))
+//@   ensures [no-fetch-otherwise] ghostDvMakeInterest == old(ghostDvMakeInterest)+1 || (ghostDvMakeInterest == old(ghostDvMakeInterest) && ghostDvExpress == old(ghostDvExpress))
+//@   ensures [at-most-one] ghostDvExpress == old(ghostDvExpress) || (ghostDvExpress == old(ghostDvExpress)+1 && ghostDvMakeInterest == old(ghostDvMakeInterest)+1)
+//@   ensures [next-in-order] ghostDvMakeInterest == old(ghostDvMakeInterest)+1 && old(dv.pfx.routers[enc.SpecNameHash(nodeId)].Latest)-old(dv.pfx.routers[enc.SpecNameHash(nodeId)].Known) <= 100 ==> ghostDvSeqComps == old(ghostDvSeqComps)+1 && ghostDvSeqAsked == old(dv.pfx.routers[enc.SpecNameHash(nodeId)].Known)+1
+//@   ensures [snapshot-when-far-behind] ghostDvMakeInterest == old(ghostDvMakeInterest)+1 && old(dv.pfx.routers[enc.SpecNameHash(nodeId)].Latest)-old(dv.pfx.routers[enc.SpecNameHash(nodeId)].Known) > 100 ==> ghostDvSeqComps == old(ghostDvSeqComps)
+//@   ensures [in-flight-marked] ghostDvMakeInterest == old(ghostDvMakeInterest)+1 ==> dv.pfx.routers[enc.SpecNameHash(nodeId)] == old(dv.pfx.routers[enc.SpecNameHash(nodeId)]) && dv.pfx.routers[enc.SpecNameHash(nodeId)].Fetching
+//@   ensures [record-kept] old(dv.pfx.hasRouter(enc.SpecNameHash(nodeId)) && dv.pfx.routers[enc.SpecNameHash(nodeId)] != nil) ==> dv.pfx.routers[enc.SpecNameHash(nodeId)] == old(dv.pfx.routers[enc.SpecNameHash(nodeId)]) && (ghostDvMakeInterest == old(ghostDvMakeInterest) ==> dv.pfx.routers[enc.SpecNameHash(nodeId)].Fetching == old(dv.pfx.routers[enc.SpecNameHash(nodeId)].Fetching))
